@@ -54,6 +54,23 @@ func simRules(n int) [][]byte {
 		}
 		return out
 	}
+	if n >= 202 && n <= 206 {
+		// payloads that COINCIDE: equal neighbours, equal messages further apart, one a prefix of the next - what the kernel
+		// sent is what GetRules returns, message for message
+		a, b := realRule(1, 4, 0), realRule(2, 7, 3)
+		switch n {
+		case 202:
+			return [][]byte{a, a}
+		case 203:
+			return [][]byte{a, b, b, a, a, a}
+		case 204:
+			return [][]byte{a, a[:len(a)-4], append(append([]byte{}, a...), 0, 0, 0, 0)}
+		case 205:
+			return [][]byte{b, b, b, b, b}
+		case 206:
+			return [][]byte{a, b, a, b}
+		}
+	}
 	var out [][]byte
 	for i := 0; i < n; i++ {
 		out = append(out, bytes.Repeat([]byte{byte(0xA0 + i), byte(i + 1)}, 30+i))
@@ -345,6 +362,16 @@ func c08Sweeps(tier string) []interface{} {
 	}
 	// a kernel holding 50 realistic rule messages (audit_rule_data layout, every buflen 0..9 x tail 0..4 bytes)
 	jobs = append(jobs, Job{Kind: "c08", Histories: allHistories([]int{1, 4}, 1), NRules: 201, Bound: 1})
+	// what follows the errno word of an acknowledgement is not the verdict: echoed request renumbered by a transport layer,
+	// zero-filled, all ones - every command, kernel says yes and kernel says EPERM
+	for _, sh := range []ksim.Shape{{EchoSeqDelta: 1}, {EchoSeqDelta: 1000}, {EchoSeqDelta: 1 << 31}, {EchoFill: 1}, {EchoFill: 2}, {EchoSeqDelta: 7, Errno: int(syscall.EPERM)}, {EchoFill: 1, Errno: int(syscall.EPERM)}} {
+		for _, c := range chunk(single, 4) {
+			jobs = append(jobs, Job{Kind: "c08", Histories: c, NRules: 2, Bound: 0, Shapes: []ksim.Shape{sh}})
+		}
+	}
+	for code := 202; code <= 206; code++ {
+		jobs = append(jobs, Job{Kind: "c08", Histories: allHistories([]int{1, 4}, 2), NRules: code, Bound: 1})
+	}
 	// a transport whose every Receive takes (virtual) time - 130 ms, 1 s, 1 min - under transient failures within
 	// the tolerated budget, and transports that rotate between 2 / 3 receive buffers
 	for _, ms := range []int{130, 1000, 60000} {
@@ -557,6 +584,7 @@ func checkC08(tier string) int {
 		}
 	}
 	stackPass(run, "C08")
+	errnoDecoderPass(run, "C08")
 	c08Concurrent(run)
 	run.Set("histories", len(hs)*3)
 	run.Set("deviation_bound_completed", bound)
